@@ -38,6 +38,7 @@ PROPS = {
                 "contains an extremum query spanning >=3 knots and queries under a prefactor != 1 and under a negative prefactor. "
                 "Distinct = distinct plan text hash among non-trivial runs.",
         "states_measure": "same tuple as C09 (the cache state at which each integral/extremum query was asked)",
+        "irrelevant_probes": ["bit_exact_comparisons", "tolerance_comparisons_at_knots"],
         "components": {"real": ["libphysica::Interpolation", "libphysica::Interpolation_2D"] + REAL_ALL,
                        "stub": ["std::random_device::_M_getval and clock/rand symbols (link-time wrap; must never fire in this engine)"]},
         "assumptions": ["the reference takes Interpolate() as the definition of the curve (its correctness is C01, not decided here)",
@@ -47,7 +48,7 @@ PROPS = {
     "C14": {
         "engine": "mc",
         "batches": {
-            "quick": [{"config": "clang-O2", "runs": 500}, {"config": "gcc-O1-asan-ubsan", "runs": 100}],
+            "quick": [{"config": "clang-O2", "runs": 800}, {"config": "gcc-O1-asan-ubsan", "runs": 160}],
             "thorough": [{"config": "clang-O2", "runs": 6000}, {"config": "gcc-O1-asan-ubsan", "runs": 600}],
         },
         "rule": "One run = one call history in a pristine process image: 2-13 integrator requests owned by 1-3 clients and interleaved by the "
@@ -69,7 +70,7 @@ PROPS = {
     "C18": {
         "engine": "samplers",
         "batches": {
-            "quick": [{"config": "clang-O2", "runs": 400}, {"config": "gcc-O1-asan-ubsan", "runs": 120, "kv": {"law_frac": "0.03"}}],
+            "quick": [{"config": "clang-O2", "runs": 600}, {"config": "gcc-O1-asan-ubsan", "runs": 200, "kv": {"law_frac": "0.03"}}],
             "thorough": [{"config": "clang-O2", "runs": 4000}, {"config": "gcc-O1-asan-ubsan", "runs": 500, "kv": {"law_frac": "0.03"}}],
         },
         "rule": "Two kinds of run on one caller-owned std::mt19937. History runs: 1-4 clients, each bound to a sampler family, interleaved "
@@ -94,10 +95,10 @@ PROPS = {
         "engine": "fileio",
         "states_per_config": True,
         "batches": {
-            "quick": [{"config": "gcc-O1-asan-ubsan", "runs": 500, "kv": {"faults": "A"}},
-                      {"config": "gcc-O1-asan-ubsan", "runs": 700, "kv": {"faults": "B"}},
-                      {"config": "clang-O0", "runs": 500, "kv": {"faults": "B"}},
-                      {"config": "clang-O0", "runs": 300, "kv": {"faults": "C"}}],
+            "quick": [{"config": "gcc-O1-asan-ubsan", "runs": 2000, "kv": {"faults": "A"}},
+                      {"config": "gcc-O1-asan-ubsan", "runs": 3000, "kv": {"faults": "B"}},
+                      {"config": "clang-O0", "runs": 2000, "kv": {"faults": "B"}},
+                      {"config": "clang-O0", "runs": 2000, "kv": {"faults": "C"}}],
             "thorough": [{"config": "gcc-O0", "runs": 3000, "kv": {"faults": "A"}},
                          {"config": "gcc-O2", "runs": 4000, "kv": {"faults": "B"}},
                          {"config": "clang-O0", "runs": 4000, "kv": {"faults": "B"}},
